@@ -11,6 +11,7 @@ import (
 	"strconv"
 	"strings"
 	"sync"
+	"time"
 
 	"vharness/attackctl"
 	"vharness/kit"
@@ -57,7 +58,11 @@ func runChildren(jobs []attackctl.Job, par int) []attackctl.Outcome {
 				sc := bufio.NewScanner(stdout)
 				sc.Buffer(make([]byte, 1<<20), 1<<28)
 				done := 0
+				// watchdog: a child that produces no outcome for five minutes is stuck (every job is bounded by far
+				// less); it is killed and the job it was running is recorded as not ending
+				watchdog := time.AfterFunc(5*time.Minute, func() { cmd.Process.Kill() })
 				for sc.Scan() {
+					watchdog.Reset(5 * time.Minute)
 					var o attackctl.Outcome
 					if json.Unmarshal(sc.Bytes(), &o) == nil {
 						mu.Lock()
@@ -67,6 +72,9 @@ func runChildren(jobs []attackctl.Job, par int) []attackctl.Outcome {
 					}
 				}
 				err := cmd.Wait()
+				if !watchdog.Stop() {
+					errb.WriteString("\nwatchdog: the child produced no outcome for five minutes and was killed while running this job")
+				}
 				if ee, ok := err.(*exec.ExitError); ok && ee.ExitCode() == attackctl.ExitDirty {
 					// the child refused to start the next job in a process that still had goroutines of an
 					// earlier (inconclusive) run: continue with a fresh process
